@@ -81,7 +81,7 @@ fn variants(kind: &str) -> Vec<&'static str> {
     match kind {
         "any" => vec![
             "text/parsed", "text/created", "attrtext/parsed", "comment/parsed", "comment/created",
-            "cdata/parsed", "cdata/created", "merged/parsed",
+            "cdata/parsed", "cdata/created", "merged/parsed", "text/detached", "cdata/detached", "comment/detached",
         ],
         "text" => vec!["text/created"],
         "attr" => vec!["attr/set"],
@@ -141,6 +141,16 @@ fn build(variant: &'static str, s: &str) -> Result<Subject, String> {
                         .as_node(),
                 };
                 e.append_child(node.clone()).map_err(|e| format!("refused:{}", err_name(&e)))?;
+                Ok(Subject { doc, node, attr: None, variant })
+            }
+            "text/detached" | "cdata/detached" | "comment/detached" => {
+                // a node that was created and never inserted: it has no parent
+                let doc = parse("<r/>", false).ok_or("skip")?;
+                let node = match variant {
+                    "text/detached" => doc.create_text_node(s).as_node(),
+                    "cdata/detached" => doc.create_cdata_section(s).as_node(),
+                    _ => doc.create_comment(s).as_node(),
+                };
                 Ok(Subject { doc, node, attr: None, variant })
             }
             "attr/set" => {
@@ -347,7 +357,7 @@ fn exec(sub: &Subject, c: &J) -> (J, Option<XmlNode>) {
 fn applicable(variant: &str, op: &str, first_child_is_text: bool) -> bool {
     match variant {
         "merged/parsed" => matches!(op, "length" | "data" | "substring"),
-        "comment/parsed" | "comment/created" => op != "split",
+        "comment/parsed" | "comment/created" | "comment/detached" => op != "split",
         "pi/created" => op == "set",
         "attr/set" => op == "set" || (first_child_is_text && op != "split" && !matches!(op, "length" | "data" | "substring")),
         _ => true,
@@ -434,7 +444,8 @@ impl<'a> Rec<'a> {
                     _ => true,
                 };
                 ideal = *p1 == exp_data && ret_ok && len == exp_data.chars().count() as i64
-                    && (op != "split" || (sib["adjacent"] == true && sib["same_parent"] == true));
+                    && (op != "split" || (sib["adjacent"] == true && sib["same_parent"] == true))
+                    && !sub.variant.ends_with("/detached");
             }
         }
         if is_mut && outc.get("ok").is_some() && reparse_on {
